@@ -100,6 +100,52 @@ def run():
     for i in range(2000 if QUICK else 120000):
         a = gen.random_abstract(rng, N=rng.randint(2, 8), K=rng.randint(1, 5), max_edges=14, nsites=3, nmuts=4)
         cases.append(drive(a, rng))
+    # scale: tree sequences that are already simplified, with hundreds of child intervals under several parents (the simplifier's
+    # per-parent buffers roll over); simplify with every node a sample / all leaf samples must give the same tables back
+    big_bad = 0
+    for i in range(4 if QUICK else 40):
+        fam = rng.randint(2, 3)
+        kids = [rng.randint(345, 420) for _ in range(fam)]
+        n = sum(kids)
+        L = 2 * max(kids) + 10
+        t = tskit.TableCollection(L)
+        for _ in range(n):
+            t.nodes.add_row(flags=1, time=0)
+        c0 = 0
+        for f_ in range(fam):
+            p_ = t.nodes.add_row(time=1 + f_)
+            for j in range(kids[f_]):
+                # staggered right ends: every child interval of a parent is distinct, nothing can be squashed
+                t.edges.add_row(0, L - 2 * j - (f_ % 2), p_, c0 + j)
+            c0 += kids[f_]
+        t.sort()
+        ts_big = t.tree_sequence()
+        t0 = ts_big.dump_tables()
+        t0.provenances.clear()
+        rec = dict(big=[fam, kids])
+        chk.note_case(rec, True)
+        try:
+            s1_ = ts_big.simplify()
+            s_ = s1_.dump_tables()
+            s_.provenances.clear()
+            s2_ = s1_.simplify().dump_tables()
+            s2_.provenances.clear()
+            # idempotent; every edge of the result is a piece of the input edge of the same (parent, child) - node ids are kept because
+            # the samples come first and the parents are listed oldest last; and nothing but unary stretches is lost
+            inp = {(int(e.parent), int(e.child)): (e.left, e.right) for e in t0.edges}
+            pieces_ok = all((int(e.parent), int(e.child)) in inp and inp[(int(e.parent), int(e.child))][0] <= e.left and e.right <= inp[(int(e.parent), int(e.child))][1]
+                            for e in s_.edges)
+            same = s_.equals(s2_) and pieces_ok and s_.nodes.equals(t0.nodes) and len(s_.edges) >= len(t0.edges) - fam
+            why = "simplify of a wide tree sequence (%d star families, %s children): not idempotent, or edges that are not pieces of the input edges" % (fam, kids)
+        except tskit.LibraryError as e:
+            same = False
+            why = "simplify of a valid wide tree sequence (%d star families, %s children) raised: %s" % (fam, kids, e)
+        if not same:
+            big_bad += 1
+            chk.violation(why, rec)
+        else:
+            chk.traces += 1
+    chk.extra["large_idempotence_cases"] = (4 if QUICK else 40)
     for c in [c for c in cases if "error" in c]:
         chk.note_case(c["a"], True)
         chk.violation("simplify raised on a valid input (or on its own output): %s\n%s" % (c["error"], c["tb"]), c)
